@@ -574,7 +574,7 @@ func (c *Check) isSignerLike(t *Term, signer string) (bool, string) {
 	if signer != "" && t.String() == signer {
 		return true, "the message signer"
 	}
-	if _, ok := t.Match("(res 0 (keeper.Keeper.GetOwner $P))"); ok {
+	if _, ok := t.Match("(res 0 (" + nameOf(c.getterByFamily("0x04"), "keeper.Keeper.GetOwner") + " $P))"); ok {
 		return true, "a stored owner (written only from a signer, C15.5)"
 	}
 	if strings.HasPrefix(t.Op, ".ServiceBinding.Owner") {
